@@ -212,28 +212,42 @@ example : openCommand [120, 32, 34, 97, 32, 98, 34] 5 [([75], [118])] =
      argv = executable :: args.drop 1 and environ = the given environment, `join` returns the child's
      exit code, every byte the child writes to a redirected output stream is returned by `read` before
      end-of-file, and every byte given to `write` arrives on the child's stdin"
-  Proved:
+  Proved (everything an executable model of the kernel can express; the remaining assumption is exactly
+  "Linux implements pipe/dup2/close/vfork/execvpe/waitpid/waitid as modelled in Kernel.lean, Pipes.lean, Wait.lean"):
    * `process_delivery_partial` -- what `open`/`start` hand to execvpe (file, argv vector, environment) and
      which pipes they request (argument and environment Strings are meant NUL-free: execvpe receives pointers to them);
    * `open_pipe_ends_exact` -- after the pipe/vfork/dup2/close sequence of `open()` the parent holds exactly
      its ends of the requested pipes and the child exactly the other ends as descriptors 0/1/2 (so end-of-file
      can arrive), over a descriptor-table model of pipe/dup2/close/vfork;
-   * `pipe_protocol_delivers_in_pipe_model`, `pipe_protocol_total_in_pipe_model` -- over an abstract pipe model (bounded FIFO, partial reads and writes, end-of-file
-     when no write end is left) the protocol write-all / close stdin / read both streams to end-of-file / join
-     against a child that reads its input and then writes its outputs never deadlocks, always ends, and ends
-     with all three byte streams intact and the exit code delivered -- for every capacity >= 1, all payloads,
-     all chunkings and all schedules;
-   * `join_returns_exit_code_in_pipe_model` -- over the same pipe model with `join()` as the action list it is coded as (close
-     the stdin write end, waitpid, close the read ends): a child that still reads its input to the end and then writes to its
-     redirected streams after join() was entered is never hit by SIGPIPE and join() stores its exit code, for all outputs
-     that fit the pipes and all schedules (outputs larger than the pipes with nobody reading block for ever: caller's protocol);
-   * `coded_calls_are_protocol_steps`, `coded_run_delivers_in_pipe_model` -- the parent's and the child's moves derived from
-     the API calls as coded are steps of the protocol system.
-  All theorems named `*_in_pipe_model` are PROTOCOL-LEVEL: one usage protocol (the harness's) against one child shape
-  (the helper's), in an abstract kernel; they are assumption-level evidence, not a proof about Linux.
-  Missing (and not provable here): that Linux behaves like these two models, and that execvpe hands argv/envp
-  unchanged to the new program.  That is what the correspondence streams `run`, `io` (sizes around the real pipe
-  capacity), `exit`, `late`, `sig`, `killbusy`, `execfail`, `p`, `killtest`, `fdtable` (descriptors of parent and child inspected through /proc) test.
+   * PropsRun.lean, for ARBITRARY parent and child programs (unconstrained system `Pipes.U`: any operation the kernel
+     permits, any order, any data, any chunking, any schedule): `pipes_deliver_intact_any_programs_in_pipe_model` (on every
+     pipe: bytes read ++ bytes queued = bytes written; capacity respected; nothing on a stream that is not redirected),
+     `eof_is_complete_and_final_in_pipe_model` (end-of-file seen => everything ever written was read, and nothing can be
+     written afterwards), `join_code_is_exit_code_any_programs_in_pipe_model` (what join stores is the exit code; 0 only
+     for a child killed by SIGPIPE, which needs the parent to close a read end early);
+   * PropsRun.lean, the documented parent protocol (write all / close stdin / read both streams to end-of-file / join)
+     against an ARBITRARY child program over readIn n | readAll | writeOut d | writeErr d | closeIn | closeOut | closeErr:
+     `protocol_delivers_any_child_program_in_pipe_model` (refines `U`; finite runs; no SIGPIPE; after join: exit code, exactly
+     the child's stdout/stderr data in order, the whole payload if the child reads to end-of-file),
+     `protocol_no_deadlock_any_child_program_in_pipe_model` (under `Fits`: the payload fits the pipe, or the child writes at
+     most one pipe capacity per stream before it has read its input to the end -- an `example` shows the deadlock otherwise),
+     `protocol_total_any_child_program_in_pipe_model` (step bound; stuck = joined with everything delivered; reachable);
+   * `pipe_protocol_delivers_in_pipe_model`, `pipe_protocol_total_in_pipe_model`, `coded_calls_are_protocol_steps`,
+     `coded_run_delivers_in_pipe_model` -- the older one-child-shape system `Sys` (the `@io` helper = the instance
+     `[readAll, writeOut O, writeErr E]` of the general one) kept because `parentNext`/`childNext` tie it to the API calls
+     as coded (buffer sizes, select order);
+   * `join_returns_exit_code_in_pipe_model` -- `join()` as the action list it is coded as (close the stdin write end, waitpid,
+     close the read ends) entered while the child still reads and writes: never SIGPIPE, the exit code is stored (outputs
+     larger than the pipes with nobody reading block for ever: caller's protocol);
+   * PropsWait.lean -- `Process::wait`/`interrupt`/`join`/`kill` over an assumed process table with pid reuse and a
+     child-exit oracle: pid-reuse safety, every child reaped exactly once, wait returns a terminated listed child,
+     interrupt wakes wait.
+  All theorems named `*_in_pipe_model` and those of PropsWait.lean are about explicit kernel MODELS; they are
+  assumption-level evidence, not a proof about Linux.
+  Missing (and not provable here): that Linux behaves like these models, and that execvpe hands argv/envp
+  unchanged to the new program.  That is what the correspondence streams `run`, `io`, `io2` (sizes around the real pipe
+  capacity), `exit`, `late`, `sig`, `killbusy`, `execfail`, `p`, `killtest`, `fdtable` (descriptors of parent and child
+  inspected through /proc), `w` (wait/interrupt with real children and a real interrupter thread) test.
 -/
 theorem process_delivery_partial (executable : Str) (args : List Str) (line : Str) (hl : ∀ c ∈ line, c ≠ 0)
     (streams : Nat) (env : List (Str × Str)) :
